@@ -13,6 +13,8 @@
 //        s 16 MB file asked for (Http::serveFile), 17 bytes read through a 4 kB receive buffer, close;  S the file downloaded completely;
 //        A the file asked for, 2 MB of it read, then RST while the transfer is in full swing;
 //        t answer sent after ResponseWriter::timeoutAfter(300 ms) was armed (the timer is disarmed by the answer)
+//        M the same with the writer moved between arming and answering; O armed (100 ms), moved to a thread that never answers: the
+//          time-out fires (408) while the moved writer lives on; Y armed (100 ms), answered at once, the writer kept 350 ms
 //        L request answered by a thread of the handler's own 150 ms later; the client closes at once, so the answer comes when
 //          the connection is gone and its descriptor number belongs to one of the fresh connections (watched for 300 ms)
 //   After every round as many fresh connections as the round had (at most 8) are opened together and each sends one
@@ -204,6 +206,36 @@ public:
                 catch (...)
                 {
                 }
+                --g_late_running;
+            }).detach();
+        }
+        else if (req.resource() == "/moved")
+        {
+            // the response time-out is armed, then the writer is moved (as a handler that hands it to another thread does)
+            response.timeoutAfter(std::chrono::milliseconds(300));
+            auto w = std::make_shared<Http::ResponseWriter>(std::move(response));
+            w->send(Http::Code::Ok, "hello /moved");
+        }
+        else if (req.resource() == "/expired")
+        {
+            // armed, moved, never answered in time: the time-out fires while the moved writer is alive elsewhere
+            response.timeoutAfter(std::chrono::milliseconds(100));
+            auto w = std::make_shared<Http::ResponseWriter>(std::move(response));
+            ++g_late_running;
+            std::thread([w] {
+                std::this_thread::sleep_for(std::chrono::milliseconds(350));
+                --g_late_running;
+            }).detach();
+        }
+        else if (req.resource() == "/kept")
+        {
+            // answered at once (which disarms the timer); the writer is kept alive beyond the timer's expiry
+            response.timeoutAfter(std::chrono::milliseconds(100));
+            auto w = std::make_shared<Http::ResponseWriter>(std::move(response));
+            w->send(Http::Code::Ok, "hello /kept");
+            ++g_late_running;
+            std::thread([w] {
+                std::this_thread::sleep_for(std::chrono::milliseconds(350));
                 --g_late_running;
             }).detach();
         }
@@ -446,6 +478,13 @@ void http_client(char b, uint16_t port)
         read_response(fd);
         ::close(fd);
         break;
+    case 'M':
+    case 'O':
+    case 'Y':
+        pv::send_all(fd, std::string("GET /") + (b == 'M' ? "moved" : b == 'O' ? "expired" : "kept") + " HTTP/1.1\r\nHost: a\r\n\r\n");
+        read_response(fd);
+        ::close(fd);
+        break;
     case 'w':
     {
         // a 24 MB answer is never read: the write blocks, the idle scan finds the peer again and again
@@ -498,7 +537,7 @@ std::string drive(const char* tag, uint16_t port, int rounds, const std::string&
         // (read before the fresh connections take the same descriptor numbers and release them again)
         if (g_log.count('D') >= conns)
         {
-            std::this_thread::sleep_for(std::chrono::milliseconds(behaviours.find('t') != std::string::npos ? 350 : 10));
+            std::this_thread::sleep_for(std::chrono::milliseconds(behaviours.find_first_of("tMOY") != std::string::npos ? 450 : 10));
             tables_max = std::max(tables_max, table_entries());
         }
         size_t n = std::min<size_t>(ts.size(), 8);
@@ -508,7 +547,7 @@ std::string drive(const char* tag, uint16_t port, int rounds, const std::string&
     for (int k = 0; k < 800 && g_log.count('D') < conns; ++k)
         std::this_thread::sleep_for(std::chrono::milliseconds(5));
     // disarmed response timers (300 ms) have fired by then
-    std::this_thread::sleep_for(std::chrono::milliseconds(behaviours.find('t') != std::string::npos ? 450 : 80));
+    std::this_thread::sleep_for(std::chrono::milliseconds(behaviours.find_first_of("tMOY") != std::string::npos ? 450 : 80));
     for (int k = 0; k < 400 && g_late_running.load() > 0; ++k)
         std::this_thread::sleep_for(std::chrono::milliseconds(5));
     int end = count_fds();
